@@ -129,6 +129,22 @@ CHECKS = {
             'non-contiguous views (reorder_pops transposes, Fortran order, strided and reversed slices) are included.',
             'Labels without double quotes/newlines, comments without newlines (not representable in the format); scratch files under /verif/.scratch.',
             'DESIGN.md §3 C14'),
+    'C17': ('model_checking',
+            'stateless exploration of all thread interleavings of the real cache builder under a controlled scheduler (fake multiprocessing; stateful symmetry-reduced DFS cross-checked by preemption-bounded unpruned DFS), exhaustive fault subsets and merge multisets, plus a quadrature lattice against an independently coded reference',
+            'Cache1D/Cache2D._multiple_processes and _worker_sfs run unchanged as baton-passed threads behind a fake multiprocessing module '
+            'whose Queue.put/get, list.append/iteration, Process.start/join are scheduling points with enabledness (bounded queue full/empty, '
+            'join target finished). Every interleaving for W workers x J jobs (W<=3-4, J<=4-5) is enumerated with pruning on the abstract state '
+            '(queue, result multiset, per-thread pending operation and item in hand; symmetric workers sorted), and re-enumerated without pruning '
+            'under preemption bounds 0,1,2; W in {8,16} preemption-bounded only. In every terminal state the cache must be bitwise the '
+            'single-process cache, every job computed exactly once, no deadlock or livelock. Every non-empty subset of failing jobs is injected '
+            'under every schedule (the constructor must raise). Every sequence of split-job caches up to length split+1 is merged (complete '
+            'sets equal the single-job cache, incomplete ones raise naming the first hole, altered copies raise). integrate / '
+            'integrate_point_pos / mixtures are compared with an independent quadrature on closed-form caches over pdf x parameter x theta x '
+            'exterior lattices, and compiled pdfs with reference formulas.',
+            'Scheduling points only at Manager-proxy operations (the workers share nothing else; a free-running pass with real processes is '
+            'included); 2-D tail masses use adaptive quadrature at epsrel 1e-3 in the implementation and are compared at 2e-3; total weight ~ 1 '
+            'asserted only on fine gamma grids.',
+            'DESIGN.md §3 C17'),
     'C19': ('model_checking',
             'exhaustive monomial basis x parameter-regime lattice x step sizes against exact derivatives; closed-form information matrices on an eps ladder; all bootstrap permutations; explicit-state enumeration of all call sequences over the shared cache up to a depth bound',
             'get_hess and get_grad (linear in the function) are applied to every monomial of degree <=2 in 1-5 variables at every point of the '
